@@ -245,7 +245,7 @@ theorem census_lib_journal_performance_universe_go : Census.lib_journal_performa
 def lib_journal_process_go : List Site := [
   -- class a: TransProcess.Close_range_agrees / CloseAccounts_day_agrees (closing transactions in the order of the keys; sorted by the Sort stage, summed by the reports)
   ("lib/journal/process.go", "CloseAccounts", "maprange", "d", "over amounts.Amounts; append h=aae72965"),
-  -- the Sort stage: a day's transactions by transaction.Compare = cmpTx
+  -- the Sort stage: a day's transactions by transaction.Compare = cmpTx. GAP found by the review (reported, see design/06-C06.md): Compare does not look at Targets (`@performance`), so same-day transactions of different files that differ only there tie and `print` shows them in arrival order
   ("lib/journal/process.go", "Sort", "sort", "-", "compare.Sort by transaction.Compare"),
   -- class a: TransProcess.DayStart_range_agrees / Valuate_DayStart_agrees (adjustment transactions in the order of the keys, for every order; sorted by the Sort stage, summed by the reports)
   ("lib/journal/process.go", "Valuate", "maprange", "d", "over amounts.Amounts; append,call:account.Registry.ValuationAccountFor,return h=59989ba6")
